@@ -33,9 +33,25 @@ ld distPL(const PtL& p, const Point64& a, const Point64& b) { return O::distPtSe
 
 Verdict judge(const Case& c) {
   Verdict v;
-  const Paths64& subj = c.P("subj");
-  const Paths64& clip = c.P("clip");
-  const Paths64& open = c.P("open");
+  // route (chosen per case): Clipper64, or ClipperD with precision p judged in ClipperD's internal grid (input times the
+  // smallest power of two above 10^p; ClipperD receives the generated input, its output is multiplied back); and
+  // ReverseSolution on or off (the direction of open pieces is not asserted)
+  int dprec = (int)c.I("dprec", -1);
+  bool rev = c.I("rev", 0) != 0;
+  double dsc = 1;
+  if (dprec >= 0) {
+    dsc = 2; while (dsc <= std::pow(10.0, dprec)) dsc *= 2;
+    int64_t m0 = std::max(O::maxAbs(c.P("subj")), std::max(O::maxAbs(c.P("clip")), O::maxAbs(c.P("open"))));
+    if ((double)m0 * dsc > 4.0e9) { dprec = -1; dsc = 1; }
+  }
+  auto scaled = [&](const Paths64& pp) { Paths64 r = pp; for (auto& p : r) for (auto& q : p) { q.x *= (int64_t)dsc; q.y *= (int64_t)dsc; } return r; };
+  const Paths64 subjS = scaled(c.P("subj")), clipS = scaled(c.P("clip")), openS = scaled(c.P("open"));
+  const Paths64& subj = dprec >= 0 ? subjS : c.P("subj");
+  const Paths64& clip = dprec >= 0 ? clipS : c.P("clip");
+  const Paths64& open = dprec >= 0 ? openS : c.P("open");
+  if (dprec >= 0) ST.count("route_ClipperD_precision_" + std::to_string(dprec));
+  if (rev) ST.count("reverse_solution");
+  auto fromD = [&](const PathsD& pp) { Paths64 r; for (auto& p : pp) { Path64 q; for (auto& pt : p) q.emplace_back((int64_t)std::llround(pt.x * dsc), (int64_t)std::llround(pt.y * dsc)); r.push_back(q); } return r; };
   Paths64 closed = subj;
   closed.insert(closed.end(), clip.begin(), clip.end());
   Paths64 all = closed;
@@ -114,12 +130,23 @@ Verdict judge(const Case& c) {
         ClipType ct = CTS[ci];
         FillRule fr = FRS[fi];
         std::string cfg = std::string(" [") + O::ctName(ct) + "," + O::frName(fr) + (tree ? ",polytree" : ",paths") + "]";
-        Clipper64 cl;
-        cl.AddSubject(subj); cl.AddClip(clip); cl.AddOpenSubject(open);
         Paths64 solC, solO;
         bool ok;
-        if (tree) { PolyTree64 t; ok = cl.Execute(ct, fr, t, solO); solC = PolyTreeToPaths64(t); }
-        else ok = cl.Execute(ct, fr, solC, solO);
+        if (dprec < 0) {
+          Clipper64 cl;
+          cl.ReverseSolution(rev);
+          cl.AddSubject(subj); cl.AddClip(clip); cl.AddOpenSubject(open);
+          if (tree) { PolyTree64 t; ok = cl.Execute(ct, fr, t, solO); solC = PolyTreeToPaths64(t); }
+          else ok = cl.Execute(ct, fr, solC, solO);
+        } else {
+          ClipperD cl(dprec);
+          cl.ReverseSolution(rev);
+          cl.AddSubject(TransformPaths<double, int64_t>(c.P("subj"))); cl.AddClip(TransformPaths<double, int64_t>(c.P("clip"))); cl.AddOpenSubject(TransformPaths<double, int64_t>(c.P("open")));
+          PathsD sc2, so2;
+          if (tree) { PolyTreeD t; ok = cl.Execute(ct, fr, t, so2); sc2 = PolyTreeToPathsD(t); }
+          else ok = cl.Execute(ct, fr, sc2, so2);
+          solC = fromD(sc2); solO = fromD(so2);
+        }
         v.evals++;
         if (!ok) { v.fail("Execute returned false" + cfg); return v; }
         // (i) locality + best-match association of every solution segment
@@ -183,6 +210,7 @@ Verdict judge(const Case& c) {
         }
         // (iv) closed solution region unchanged by the presence of open subjects
         Clipper64 c2;
+        c2.ReverseSolution(rev);
         c2.AddSubject(subj); c2.AddClip(clip);
         Paths64 solC2;
         c2.Execute(ct, fr, solC2);
@@ -202,18 +230,18 @@ Verdict judge(const Case& c) {
             for (auto& pt : S.pts) { Point64 q(pt.x * mul, pt.y * mul); if (O::winding(q, a).w != O::winding(q, b).w) return false; }
             return true;
           };
-          Clipper64 c3; c3.AddSubject(subj); c3.AddClip(clip); c3.AddOpenSubject(open);
+          Clipper64 c3; c3.ReverseSolution(rev); c3.AddSubject(subj); c3.AddClip(clip); c3.AddOpenSubject(open);
           Paths64 solC3;
           if (!c3.Execute(ct, fr, solC3)) { v.fail("Execute(closed only) returned false" + cfg); return v; }
           if (!sameRegion(solC3, solC2, 1)) { v.fail("Execute(ct, fr, closed) with open subjects loaded: closed region differs from the result without open subjects" + cfg); return v; }
-          Clipper64 c4; c4.AddSubject(subj); c4.AddClip(clip); c4.AddOpenSubject(open);
+          Clipper64 c4; c4.ReverseSolution(rev); c4.AddSubject(subj); c4.AddClip(clip); c4.AddOpenSubject(open);
           PolyTree64 t4;
           if (!c4.Execute(ct, fr, t4)) { v.fail("Execute(tree only) returned false" + cfg); return v; }
           if (!sameRegion(PolyTreeToPaths64(t4), solC2, 1)) { v.fail("Execute(ct, fr, tree) with open subjects loaded: closed region differs from the result without open subjects" + cfg); return v; }
           // ClipperD, precision 0 (half-unit grid): compare in doubled coordinates
           auto dbl = [](const PathsD& pp) { Paths64 r; for (auto& p : pp) { Path64 q; for (auto& pt : p) q.emplace_back((int64_t)std::llround(pt.x * 2), (int64_t)std::llround(pt.y * 2)); r.push_back(q); } return r; };
           PathsD sd = TransformPaths<double, int64_t>(subj), cdd = TransformPaths<double, int64_t>(clip), od = TransformPaths<double, int64_t>(open);
-          ClipperD d1(0), d2(0); d1.AddSubject(sd); d1.AddClip(cdd); d1.AddOpenSubject(od); d2.AddSubject(sd); d2.AddClip(cdd);
+          ClipperD d1(0), d2(0); d1.ReverseSolution(rev); d2.ReverseSolution(rev); d1.AddSubject(sd); d1.AddClip(cdd); d1.AddOpenSubject(od); d2.AddSubject(sd); d2.AddClip(cdd);
           PathsD r1, r2;
           if (!d1.Execute(ct, fr, r1) || !d2.Execute(ct, fr, r2)) { v.fail("ClipperD::Execute(closed only) returned false" + cfg); return v; }
           if (!sameRegion(dbl(r1), dbl(r2), 2)) { v.fail("ClipperD::Execute(ct, fr, closed) with open subjects loaded: closed region differs from the result without open subjects" + cfg); return v; }
@@ -235,6 +263,8 @@ Case gen() {
   for (int k = 0; k < n; ++k) open.push_back(GEN::randomPath(2, 8, R + R / 4));
   if (G::chance(35)) { int pct = (int)G::range(20, 60); for (auto& p : open) GEN::axisAlignSome(p, pct); }   // horizontal / vertical open segments
   c.p["open"] = open;
+  c.i["rev"] = G::chance(30);
+  if (G::chance(25)) c.i["dprec"] = G::range(0, 3);
   ST.count("shape_" + g.shape);
   return c;
 }
